@@ -262,6 +262,10 @@ impl<R: Round> Context<R> {
         // - such that x*2^s is close to but larger than 1 (and x*2^s < 2)
         let guard_digits = (self.precision.log2_est() / B.log2_est()) as usize + 2;
         let mut work_precision = self.precision + guard_digits + one_plus as usize;
+        // the argument must not be rounded before x - 1 (resp. 1 + x) is formed: near 1 (resp. -1, 0)
+        // the digits beyond the working precision are the leading digits of the result
+        // (one more digit for the scaling by a power of two, which is not exact unless B = 2)
+        work_precision = work_precision.max(x.digits() + guard_digits + 1 + one_plus as usize);
         let context = Context::<R>::new(work_precision);
         let x = FBig::new(context.repr_round_ref(x).value(), context);
 
